@@ -3,7 +3,7 @@
    types; andb/orb inlined) and ExtrOcamlString (ascii => char, string => char list). nat, N, Z, positive
    stay the extracted inductive datatypes. *)
 From Coq Require Import Extraction ExtrOcamlBasic ExtrOcamlString.
-From GV Require Import Base.Util Spec.Smiles Spec.Chem Spec.Iso Model.PyLite Gen.Converter Gen.Tables Model.Library Model.Gate Spec.Graft Model.Merger Spec.Ebnf Gen.Grammar Spec.Reader Model.Edge Spec.Modify Spec.Acyl Spec.Skeleton Model.Walker Model.Splice Model.Memo Gen.WalkerGen Model.IsoFast Proofs.SpliceStr.
+From GV Require Import Base.Util Spec.Smiles Spec.Chem Spec.Iso Model.PyLite Gen.Converter Gen.Tables Model.Library Model.Gate Spec.Graft Model.Merger Spec.Ebnf Gen.Grammar Spec.Reader Model.Edge Spec.Modify Spec.Acyl Model.PolyCarbon Spec.Skeleton Model.Walker Model.Splice Model.Memo Gen.WalkerGen Model.IsoFast Proofs.SpliceStr.
 Extraction Language OCaml.
 Extraction "../_build/extracted/gv.ml"
   Util.s2l Util.nat2str Util.str2nat
@@ -19,7 +19,7 @@ Extraction "../_build/extracted/gv.ml"
   Ebnf.accepts Memo.accepts_m Ebnf.lex Grammar.token_table Grammar.rules Grammar.start_rule
   Reader.read Reader.render Reader.size
   Edge.add_edge Edge.code_ketose_test Edge.spec_ketose_test
-  Modify.modify_all Modify.fragment_kind Acyl.acyl_text Acyl.acyl_token
+  Modify.modify_all Modify.fragment_kind Acyl.acyl_text Acyl.acyl_token PolyCarbon.parse_poly_carbon
   Skeleton.deoxy Skeleton.anhydro Skeleton.oxidise Skeleton.reduce_ring Skeleton.terminal_carbon Skeleton.chain_length Skeleton.position Iso.same_except_at Iso.inverted_exactly_at
   Walker.parse_begin Walker.parse_begin_with Walker.walk WalkerGen.walk_gen
   Splice.splice_children Splice.splice_check SpliceStr.splice_str_children
